@@ -6,6 +6,7 @@ literal or a `self.<attr>NotificationName` reference).
 Per method that posts / holds / releases: the statement-order skeleton
     post <name> <old source> <new source> | hold | release | write | loopStart | loopEnd
 in source order (control flow flattened; loops with no event inside dropped; `self.dirty = ...` ignored).
+A closure over `self` that posts (Layer.setDataFromSerialization.set_glyph) is extracted as a method of its own.
 
 Fails closed: a statement kind, a notification-name expression or a payload shape it does not recognise raises
 `ExtractError` (reported by vcheck as a broken tie, never skipped).
@@ -85,6 +86,7 @@ class MethodWalker(object):
         self.posts = []          # (NameRef, receiver is self?)
         self.locals = {}         # name -> classification
         self.dicts = {}          # local name -> dict-building node
+        self.closures = []       # nested functions that post on behalf of `self`
 
     def fail(self, node, what):
         raise ExtractError("%s line %s: %s: %s" % (self.where, getattr(node, "lineno", "?"), what,
@@ -296,12 +298,17 @@ class MethodWalker(object):
             return self.walk(st.body, k)
         if isinstance(st, (ast.Return, ast.Raise, ast.Assert, ast.Pass, ast.Import, ast.ImportFrom, ast.Continue, ast.Break)):
             return k
-        if isinstance(st, (ast.FunctionDef, ast.ClassDef)):
-            # helper closures (serialisation setters) never post: make sure of it
-            for n in ast.walk(st):
-                if isinstance(n, ast.Attribute) and n.attr in ("postNotification", "holdNotifications",
-                                                               "releaseHeldNotifications"):
-                    self.fail(st, "notification call inside a nested function")
+        if isinstance(st, ast.FunctionDef):
+            # a closure over `self`: it runs when it is called, not where it is defined.  If it posts / holds /
+            # releases it is extracted as a method of its own, named `<method>.<closure>` (see `closures`)
+            if has_notification_call(st):
+                if any(a.arg == "self" for a in st.args.args):
+                    self.fail(st, "posting closure that rebinds self")
+                self.closures.append(st)
+            return k
+        if isinstance(st, ast.ClassDef):
+            if has_notification_call(st):
+                self.fail(st, "notification call inside a nested class")
             return k
         self.fail(st, "unrecognised statement kind %s" % type(st).__name__)
 
@@ -401,6 +408,16 @@ def extract_tables(repo):
                 for ref in w.posts:
                     posts.append((mname, ref))
                 skeletons.append((node.name, mname, w.events))
+                todo = [(mname, c) for c in w.closures]
+                while todo:
+                    outer, c = todo.pop(0)
+                    cname = "%s.%s" % (outer, c.name)
+                    wc = MethodWalker(node.name, c, "%s.py %s.%s" % (fn, node.name, cname))
+                    wc.walk(c.body, 0)
+                    for ref in wc.posts:
+                        posts.append((cname, ref))
+                    skeletons.append((node.name, cname, wc.events))
+                    todo += [(cname, cc) for cc in wc.closures]
                 for suffix, body in branch_variants(func):
                     w2 = MethodWalker(node.name, func, where + suffix)
                     w2.walk(body, 0)
